@@ -56,7 +56,12 @@ def canonicalize_url(
 
     # Path normalization
     if path:
+        # NOTE: normpath drops the trailing slash, but "/a/" is not "/a"
+        trailing_slash = path.endswith(("/", "/.", "/.."))
         path = normpath(path)
+
+        if trailing_slash and path:
+            path += "/"
 
     # Empty path etc.
     if not path or path == "/":
